@@ -132,7 +132,7 @@ def allocate (c : FCfg) (f : Full) (size key : Nat) (upload : Bool) : Alloc :=
 /-- The unlocked copy of an upload. -/
 def copy (f : Full) (id data : Nat) : Option Full :=
   match f.w.obj? id, f.w.copy id data with
-  | some o, some w => some { w := w, bm := BlockMap.unpin f.bm o.abs }
+  | some o, some w => if o.upload then some { w := w, bm := BlockMap.unpin f.bm o.abs } else none
   | _, _ => none
 
 /-- The unlocked copy of a refresh from the location `(slot, off, size)`. -/
